@@ -267,6 +267,11 @@ fn point_coords() -> Vec<(Fe, Fe)> {
     let x2 = fe(3);
     let y2 = -inv(d * g.x * g.y * x2);
     v.push((x2, y2));
+    // ... and d*x1*x2*y1*y2 = +1 (the other denominator of the addition law)
+    v.push((x2, inv(d * g.x * g.y * x2)));
+    // both poles against the off-curve pair (1,1) and against (g.x, g.y+1)
+    v.push((fe(5), inv(d * fe(5))));
+    v.push((fe(5), -inv(d * fe(5))));
     v
 }
 
